@@ -62,9 +62,11 @@ json generate(uint64_t seed, uint64_t idx, int tier)
 			else
 				s["v"] = to_json_bytes(gen_string_value(r, false, 5));
 			unsigned m = (unsigned)r.below(3);
-			if (m == 0)
+			if (m == 0) {
+				static const int verdicts[] = {1, -1, 3, -9};
 				s["cb2"] = "veto";
-			else if (m == 1 && t != "str") {
+				s["cb2v"] = verdicts[r.below(4)];
+			} else if (m == 1 && t != "str") {
 				s["cb2"] = "rewrite";
 				s["cb2i"] = r.range(1000, 2000);
 				s["cb2f"] = (double)r.range(4000, 8000) / 4.0;
@@ -295,9 +297,12 @@ JudgeOut judge(const json &plan)
 	}
 	bool enumerate = params.contains("enumerate");
 	uint64_t fp = plan_fingerprint(plan);
-	auto check_k = [&](uint64_t k) {
+	// any non-zero result refuses: the k-th invocation returns 1, -1, 2 or -7
+	static const int VERDICTS[] = {1, -1, 2, -7};
+	auto check_k = [&](uint64_t k, int verdict) {
 		json p2 = clean;
 		p2["steps"][main_step]["fcb"] = k;
+		p2["steps"][main_step]["fcbv"] = verdict;
 		RunResult r = execute(p2);
 		add_exec_counters(out, r);
 		out.k.add("fault.callback_failure.configured");
@@ -378,14 +383,16 @@ JudgeOut judge(const json &plan)
 	if (!enumerate) {
 		uint64_t k = steps[main_step].value("fcb", (uint64_t)0);
 		if (k)
-			check_k(k);
+			check_k(k, steps[main_step].value("fcbv", 1));
 		return out;
 	}
 	std::set<std::string> seen_cls;
 	for (uint64_t k = 1; k <= obs.size(); k++) {
-		note_subcase(json::array({{{"op", "add"}, {"path", "/steps/" + std::to_string(main_step) + "/fcb"}, {"value", k}}, {{"op", "remove"}, {"path", "/params/enumerate"}}}));
+		int verdict = VERDICTS[(k + fp) % 4];
+		note_subcase(json::array({{{"op", "add"}, {"path", "/steps/" + std::to_string(main_step) + "/fcb"}, {"value", k}}, {{"op", "add"}, {"path", "/steps/" + std::to_string(main_step) + "/fcbv"}, {"value", verdict}},
+					  {{"op", "remove"}, {"path", "/params/enumerate"}}}));
 		size_t before = out.viol.size();
-		check_k(k);
+		check_k(k, verdict);
 		for (size_t i = before; i < out.viol.size();) {
 			if (!seen_cls.insert(out.viol[i].cls).second)
 				out.viol.erase(out.viol.begin() + i);
